@@ -326,6 +326,66 @@ fn scenario(rng: &mut Rng, append_mode: bool, events: &Events, problems: &mut Ve
     events.lock().unwrap().retain(|e| e["e"] != "audit");
 }
 
+// a message without format arguments (the formatting machinery can hand such a message over as one string): 2048 bytes
+macro_rules! b64 {
+    () => {
+        "0123456789abcdefghijklmnopqrstuvwxyzABCDEFGHIJKLMNOPQRSTUVWXYZ+/"
+    };
+}
+macro_rules! literal_2k {
+    () => {
+        concat!(b64!(), b64!(), b64!(), b64!(), b64!(), b64!(), b64!(), b64!(), b64!(), b64!(), b64!(), b64!(), b64!(), b64!(), b64!(), b64!(),
+                b64!(), b64!(), b64!(), b64!(), b64!(), b64!(), b64!(), b64!(), b64!(), b64!(), b64!(), b64!(), b64!(), b64!(), b64!(), b64!())
+    };
+}
+
+/// Durable (FileAppender.tla) when the file itself takes only part of a write call: a file size limit cuts the direct
+/// write of a large last chunk short.  Whatever append answers, a record it acknowledged is in the file, all of it.
+/// Records are "LEVEL " + 2048 bytes, through the stock pattern encoder, the message once as a literal without format
+/// arguments and once with one.
+fn short_write_check(problems: &mut Vec<Value>) {
+    for (variant, limit) in [(0usize, 4096u64), (1, 4096), (0, 6000), (1, 2500)] {
+        let scratch = Scratch::new("fsize");
+        let path = scratch.path().join("app.log");
+        let a = FileAppender::builder().encoder(Box::new(log4rs::encode::pattern::PatternEncoder::new("{l} {m}"))).build(&path).unwrap();
+        unsafe {
+            libc::signal(libc::SIGXFSZ, libc::SIG_IGN);
+            let mut rl = libc::rlimit { rlim_cur: 0, rlim_max: 0 };
+            libc::getrlimit(libc::RLIMIT_FSIZE, &mut rl);
+            rl.rlim_cur = limit as libc::rlim_t;
+            libc::setrlimit(libc::RLIMIT_FSIZE, &rl);
+        }
+        let mut acked = 0usize;
+        for _ in 0..4 {
+            let r = if variant == 0 {
+                catch(|| a.append(&log::Record::builder().level(log::Level::Info).args(format_args!(literal_2k!())).build()))
+            } else {
+                catch(|| a.append(&log::Record::builder().level(log::Level::Info).args(format_args!("{}", literal_2k!())).build()))
+            };
+            if matches!(r, Ok(Ok(()))) {
+                acked += 1;
+            } else {
+                break; // (nothing after the first refusal is of interest: the limit stays reached)
+            }
+        }
+        unsafe {
+            let mut rl = libc::rlimit { rlim_cur: 0, rlim_max: 0 };
+            libc::getrlimit(libc::RLIMIT_FSIZE, &mut rl);
+            rl.rlim_cur = rl.rlim_max;
+            libc::setrlimit(libc::RLIMIT_FSIZE, &rl);
+        }
+        drop(a);
+        let content = std::fs::read(&path).unwrap_or_default();
+        let record = format!("INFO {}", literal_2k!());
+        let whole = content.len() >= acked * record.len() && (0..acked).all(|k| &content[k * record.len()..(k + 1) * record.len()] == record.as_bytes());
+        if !whole {
+            problems.push(json!({"what": "a record was acknowledged although the file took only part of it (write cut short by a file size limit)",
+                                 "limit": limit, "message_has_format_arguments": variant == 1, "acknowledged": acked, "file_length": content.len(),
+                                 "record_length": record.len()}));
+        }
+    }
+}
+
 /// `filetrace <out.ndjson> <append|truncate> <runs> <seed>`
 pub fn main(args: &[String]) {
     quiet_panics();
@@ -337,6 +397,9 @@ pub fn main(args: &[String]) {
     for r in 0..n {
         scenario(&mut rng, append_mode, &events, &mut problems, r);
     }
+    // (single-threaded from here on: the file size limit is the process's)
+    log4rs::verif::set_global_callback(None);
+    short_write_check(&mut problems);
     let ev = events.lock().unwrap();
     let hooks = ev.iter().filter(|e| e["e"] == "lock").count();
     write_ndjson(&args[0], &ev);
